@@ -228,6 +228,11 @@ func runC12Bubble(e *Env, p *Program, res *Result) {
 		}
 		return StateFromImage(img, e.Led.PageSize)
 	}
+	// every remote call of litestream is a scheduling point, before it is issued
+	// and after it returned (the task then holds whatever the caller holds)
+	e.WrapClient = func(inner litestream.ReplicaClient) litestream.ReplicaClient {
+		return &taskYieldClient{ReplicaClient: inner}
+	}
 	if p.Params["sql_seam"] == 1 {
 		installSQLSeam() // every SQL statement of litestream is a scheduling point
 	} else {
@@ -358,6 +363,20 @@ func runC12Bubble(e *Env, p *Program, res *Result) {
 		return // an operation panicked: locks it held stay taken, nothing further is meaningful
 	}
 	if len(stuck) > 0 {
+		// does the call come back once the application ends the transaction it
+		// still holds? Then it was busy-looping (or waiting) on the application,
+		// which is a different finding from a call that is lost for good.
+		if e.App.readerTx || e.App.holding {
+			e.App.Do(&Step{K: "hold_rollback"})
+			e.App.Do(&Step{K: "reader_end"})
+			if stuck2 := sch.Drain(30*time.Second, 6000); len(stuck2) == 0 {
+				v := e.fail("call-spins-until-app-transaction-ends", "these calls did not return within 6000 scheduling steps and several simulated minutes while the application kept a transaction open, and returned once it ended: %v", stuck)
+				fs := int64(e.Led.PageSize + 24)
+				v.Facts["tiny_sync_chunk"] = e.Prog.Cfg.MaxSyncWALBytes > 0 && e.Prog.Cfg.MaxSyncWALBytes <= fs
+				res.Violation = v
+				return
+			}
+		}
 		res.Violation = e.fail("call-never-returns", "after the schedule ended and every yield was released, these calls still have not returned: %v", stuck)
 		return
 	}
@@ -596,6 +615,37 @@ func concExec(ctx context.Context, e *Env, store *litestream.Store, levels lites
 
 // archClient forwards to its own client and records uploads/deletes in the
 // run's shared archive.
+// taskYieldClient parks the calling task before and after the listing, open and
+// write calls of the replica client (CONC engine).
+type taskYieldClient struct {
+	litestream.ReplicaClient
+}
+
+func yieldTask(site string) {
+	if tk := verifTask(); tk != nil {
+		tk.Yield(site)
+	}
+}
+
+func (c *taskYieldClient) LTXFiles(ctx context.Context, level int, seek ltx.TXID, useMetadata bool) (ltx.FileIterator, error) {
+	yieldTask("client:list")
+	itr, err := c.ReplicaClient.LTXFiles(ctx, level, seek, useMetadata)
+	yieldTask("client:list:done")
+	return itr, err
+}
+
+func (c *taskYieldClient) WriteLTXFile(ctx context.Context, level int, minTXID, maxTXID ltx.TXID, r io.Reader) (*ltx.FileInfo, error) {
+	yieldTask("client:write")
+	info, err := c.ReplicaClient.WriteLTXFile(ctx, level, minTXID, maxTXID, r)
+	yieldTask("client:write:done")
+	return info, err
+}
+
+func (c *taskYieldClient) OpenLTXFile(ctx context.Context, level int, minTXID, maxTXID ltx.TXID, offset, size int64) (io.ReadCloser, error) {
+	yieldTask("client:open")
+	return c.ReplicaClient.OpenLTXFile(ctx, level, minTXID, maxTXID, offset, size)
+}
+
 type archClient struct {
 	litestream.ReplicaClient
 	fs *FaultStore
